@@ -37,3 +37,11 @@ func ZZ_C01_rt(a []int) {
 		zzViewEmit(got, "q.")
 	}
 }
+
+// ZZ_C01_rewill: as ZZ_C01_rt for a CONNECT whose will message replaces one
+// attached earlier (symbolic QoS 0..3 and retain flag of the first one).
+func ZZ_C01_rewill(a []int) {
+	zzDecoyWill = true
+	ZZ_C01_rt(a)
+	zzDecoyWill = false
+}
